@@ -25,6 +25,7 @@ def run(ctx):
     fz.thresholds_homogeneous(ctx)
     fz.noise_test_reference_global(ctx)
     fz.norm_divisions_guarded(ctx)
+    fz.projection_coefficient_orientation(ctx)
     eigsbase.flag_freshness(ctx, BASE)
     eigsbase.ritz_data_of_current_call(ctx, BASE)
     eigsbase.coherent_permutation(ctx, BASE)
